@@ -124,6 +124,16 @@ def h_hostile(ex, srcs, gaps, phase='fresh', length=8, dll='j1939-21'):
     w.run(until=w.now + T(1))
     ex.claim('timer_fires_on_time', len(fired) == 1 and bool(fired[0] >= t_reg + Fraction(1, 4)) and bool(fired[0] <= t_reg + Fraction(1, 4) + Fraction(2, 1000)),
              dict(info, fired=[str(t - t_reg) for t in fired]))
+    # ---- no session survived: stray data packets are ignored (nothing is delivered or answered)
+    nrx = len(st.rx)
+    k2 = len(w.log)
+    for s_ in sorted(set(srcs)):
+        for dest in (255, S):
+            for seq in (1, 2, 3):
+                w.inject(n, tp21.can_id(7, 0xEB, dest, s_), [seq, 1, 2, 3, 4, 5, 6, 7])
+    w.run(until=w.now + T('1/10'))
+    ex.claim('stray_packets_after_timeout_ignored', len(st.rx) == nrx and len(frames_of(w, k2)) == 0,
+             dict(info, deliveries=len(st.rx) - nrx, frames=len(frames_of(w, k2))))
     # ---- well-formed transfers complete in both directions (same pair the traffic used)
     scripted_rx_transfer(ex, w, st, 'followup')
     scripted_tx_transfer(ex, w, st, 'followup')
